@@ -1,11 +1,15 @@
 package dvsim
 
 import (
+	"crypto/sha256"
+	"encoding/hex"
 	"fmt"
 	"os"
 	"path/filepath"
 	"sort"
 	"strings"
+
+	"github.com/named-data/ndnd/dv/dv"
 )
 
 // Machine gives the explore engine cheap successors. The engine identifies a state by its
@@ -52,6 +56,15 @@ func NewMachineOpt(g Graph, init func(*Sim), apply func(*Sim, string), opt Optio
 	if os.Getenv("VERIF_DV_NOCACHE") != "" {
 		m.noCache = true // plain re-execution for everything (debugging / differential runs)
 	}
+	// The save/restore hooks copy the fields the router and table structs have in the tree they
+	// were written for. If a struct has gained or lost a field, they cannot be trusted: plain
+	// re-execution from the start, in every worker alike.
+	if sum := sha256.Sum256([]byte(dv.VerifFieldSignature())); hex.EncodeToString(sum[:16]) != knownFieldSignature && !m.noCache {
+		fmt.Fprintf(os.Stderr, "dvsim: router/table struct fields differ from the ones the save/restore hooks cover; plain re-execution for %q\n", tag)
+		m.live = m.fresh()
+		m.fallback()
+		return m
+	}
 	m.live = m.fresh()
 	m.put("", m.live.Save())
 	return m
@@ -79,6 +92,9 @@ func (m *Machine) put(key string, st *SimState) {
 		m.fifo = append(m.fifo, key)
 	}
 }
+
+// knownFieldSignature is sha256[:16] of dv.VerifFieldSignature() on the tree the hooks were written for.
+const knownFieldSignature = "c12943fffe8e457b96a63dd71e16c2a1"
 
 // Lazy is an instance: a history, materialised on demand.
 type Lazy struct {
@@ -127,7 +143,7 @@ func (l *Lazy) Sim() *Sim {
 			ref.Close()
 			m.Stats.Validations++
 		}
-		if m.count%64 == 0 && !m.noCache && m.fallbackSeen() {
+		if !m.noCache && m.fallbackSeen() {
 			m.noCache = true
 		}
 		if m.noCache {
@@ -191,6 +207,53 @@ func (l *Lazy) run() {
 		l.pos++
 		m.Stats.OpsRun++
 	}
+}
+
+// Probe exercises the restore shortcut on a handful of states BEFORE any request is served: a
+// path of up to depth first-enabled operations, then, walking back up, a sibling of every state on
+// it (so that older snapshots are restored into router objects that have meanwhile been somewhere
+// else). Every one of these materialisations is cross-checked against plain re-execution; if the
+// routers carry state the save/restore hooks do not cover, the machine falls back to plain
+// re-execution before it has handed out a single state. All workers run the same probe, so they
+// agree. enabled lists the operations enabled in a state, in a deterministic order.
+func (m *Machine) Probe(enabled func(*Sim) []string, depth int) {
+	if m.noCache {
+		return
+	}
+	first, every := m.ValidateFirst, m.ValidateEvery
+	m.ValidateFirst, m.ValidateEvery = 1<<30, 0
+	defer func() { m.ValidateFirst, m.ValidateEvery, m.count = first, every, 0 }()
+	var hist []string
+	alts := [][]string{}
+	for len(hist) < depth && !m.noCache {
+		l := m.New()
+		for _, o := range hist {
+			l.Do(o)
+		}
+		ops := enabled(l.Sim())
+		l.Checkpoint()
+		if len(ops) == 0 {
+			break
+		}
+		alts = append(alts, ops)
+		hist = append(hist, ops[0])
+	}
+	for j := len(alts) - 1; j >= 0 && !m.noCache; j-- {
+		for _, alt := range alts[j] {
+			if alt == hist[j] {
+				continue
+			}
+			l := m.New()
+			for _, o := range hist[:j] {
+				l.Do(o)
+			}
+			l.Do(alt)
+			l.Sim()
+			l.Checkpoint()
+			break
+		}
+	}
+	m.owner = nil
 }
 
 // Checkpoint saves the state after the whole history (if it consists of table contents only) so
